@@ -176,6 +176,7 @@ def run_worker(job, r):
     sess = net.Session(exe, env, work, responder)
     cmd = sess.cmd
     cmd('ctx 0')
+    cmd('log 0 %d' % [0, 2, 5, 0, 3][seed % 5])      # log level NONE / WARNING / DEBUG / NOTICE: the outcome of a call never depends on it
     cmd('opt 0 ext_pdu_ver %d' % version)
     cmd('opt 0 ext_hmac %d' % alg)
     if seed % 3 == 0:
